@@ -15,9 +15,10 @@ def crate_dir():
     dst = os.path.join(symx.BUILD, "kani-src")
     shutil.rmtree(dst, ignore_errors=True)
     shutil.copytree(src, dst, ignore=shutil.ignore_patterns("target", "Cargo.lock"))
-    p = os.path.join(dst, "Cargo.toml")
-    txt = open(p).read().replace("/repo/", symx.REPO + "/")
-    open(p, "w").write(txt)
+    for f in ("Cargo.toml", "build.rs"):
+        p = os.path.join(dst, f)
+        txt = open(p).read().replace("/repo/", symx.REPO + "/")
+        open(p, "w").write(txt)
     return dst
 
 
